@@ -36,7 +36,7 @@ ASSUMPTIONS = ["observer instances never outlive their own time-out, victims are
                "global endpoints (metrics) are excluded from the comparison",
                "the oracle is self-relative: a defect that is identical in the interleaved and the solo run does not surface here"]
 FAULT_KINDS = ["request_interleaving", "victim_expiry", "victim_stop", "preemption"]
-PROBES = ["instances_created_by_one_batch_request", "server_level_run_traffic", "same_settings_on_two_instances", "victim_swept_by_observer_request", "victim_stopped", "settings_differ_between_instances", "shared_base_model",
+PROBES = ["session_on_its_own_time_grid", "instances_created_by_one_batch_request", "server_level_run_traffic", "same_settings_on_two_instances", "victim_swept_by_observer_request", "victim_stopped", "settings_differ_between_instances", "shared_base_model",
           "adapter_files_compared"]
 EXHAUSTIVE = {"quick": False, "thorough": False}
 
@@ -92,6 +92,11 @@ def generate(spec):
         ops.append({"t_us": t, "inst": j, "op": "begin_session", "scenarios": [scen] if rng.random() < 0.7 else ["base", "alt"],
                     "equations": rng.sample(eqs, rng.randint(1, len(eqs))),
                     "settings": _settings(rng, template, j, scen) if rng.random() < 0.7 else {}})
+        if rng.random() < 0.25:
+            # this instance's session runs on a time grid of its own (run specs in the begin-session settings)
+            st_ = ops[-1]["settings"] = copy.deepcopy(ops[-1]["settings"]) or {}
+            d_ = rng.choice([0.25, 0.5])
+            st_.setdefault("smA", {}).setdefault(ops[-1]["scenarios"][0], {})["runspecs"] = {"starttime": 1.0, "dt": d_, "stoptime": 1.0 + d_ * rng.choice([6, 10])}
         n = rng.randint(4, 10)
         fate_done = False
         for _ in range(n):
@@ -342,6 +347,8 @@ def execute(case):
     seq = [o["inst"] for o in case["ops"]]
     if any(o["op"] == "create_batch" for o in case["ops"]):
         res.probe("instances_created_by_one_batch_request")
+    if any("runspecs" in json.dumps(o.get("settings") or {}) for o in case["ops"] if o["op"] == "begin_session"):
+        res.probe("session_on_its_own_time_grid")
     if any(o["op"] == "server_run" for o in case["ops"]):
         res.probe("server_level_run_traffic")
     interleaved = any(seq[a] != seq[a + 1] for a in range(len(seq) - 1))
